@@ -266,6 +266,21 @@ def fault_free(col, case, d, r):
         col.inconc("dump failed: %s" % dmp["dump_error"])
         return None
     col.mon("fault_free")
+    try:
+        expected_from_dump(dmp)
+        writable = True
+    except Exception:
+        writable = False
+    if not writable:
+        # the library returned a merged notebook that nbformat cannot serialise (the open C04 findings, e.g. a code
+        # cell without `outputs` after a cell changed type): the command's write step fails without any injected fault.
+        # C08 then asks for: no success reported, output untouched.
+        col.count("fault_free_write_step_failed:merged_notebook_not_serialisable(C04's business)")
+        if rc == 0:
+            col.violation("success-reported-although-result-not-serialisable", "rc=0 [mode=%s]" % case["mode"], cc, "never-report-success")
+        if output and outbytes != pre and case["mode"] != "decisions_out":
+            col.violation("failed-run-touched-output", "write step failed (merged notebook not serialisable, rc=%s) but the output bytes changed [mode=%s]" % (rc, case["mode"]), cc, "untouched-before-write")
+        return None
     want_rc = 1 if dmp["conflict"] else 0
     if (rc == 0) != (want_rc == 0):
         col.violation("exit-status-disagrees-with-conflicts", "rc=%s but conflict=%s [mode=%s]" % (rc, dmp["conflict"], case["mode"]), cc, "exit-status")
